@@ -97,6 +97,12 @@ class FsMatch(Contract):
 
         def h_split(eng, node, st, args):
             k = st.ghost['$k1']
+            # the captured text is cut at the separators of the platform rule in force - a backslash is an ordinary character of a POSIX name
+            isw = pyvc.truthy(st.env['is_win'])
+            def table(win, nix):
+                return U('getitem', ObjV(z3.If(isw, z3.Const(win, Obj), z3.Const(nix, Obj))), st.fields['ptype'])
+            eng.oblige('_Match._fs_match.captured_text_is_cut_with_the_separator_tables_of_the_platform_rule_in_force_(is_win)', st,
+                       z3.And(pyvc.eq(st.env['split'], table('RE_WIN_SPLIT', 'RE_SPLIT')), pyvc.eq(st.env['strip'], table('RE_WIN_STRIP', 'RE_STRIP'))), node)
             eng.oblige('_Match._fs_match.components_are_those_of_the_captured_text_of_the_current_group', st,
                        pyvc.eq(args[0], U('strip', ObjV(STAR(k)), st.env['strip'])), node)
             return V('list', None, length=NP(k), elem=lambda j: ObjV(PART(k, j)))
@@ -194,7 +200,7 @@ class FsMatch(Contract):
                  lambda c: pyvc.truthy(c.ret) == me.spec())]
 
     obligation_props = {'_Match._fs_match.cache': ('C19', 'C04'), '_Match._fs_match.loop': ('C04', 'C06'), '_Match._fs_match.the_WHOLE': ('C04', 'C01'),
-                        '_Match._fs_match.components': ('C04', 'C06'), '_Match._fs_match.walk_of': ('C04', 'C06')}
+                        '_Match._fs_match.components': ('C04', 'C06'), '_Match._fs_match.captured_text': ('C04', 'C06', 'C17'), '_Match._fs_match.walk_of': ('C04', 'C06')}
 
 
 ALL = [FsMatch()]
